@@ -23,7 +23,10 @@ from resonaate.physics.time import conversions as tconv  # noqa: E402
 from resonaate.physics.time.stardate import JulianDate, datetimeToJulianDate  # noqa: E402
 from resonaate.physics.transforms import methods as M  # noqa: E402
 from resonaate.physics.transforms import reductions as red  # noqa: E402
+from resonaate.common.behavioral_config import BehavioralConfig  # noqa: E402
 from resonaate.physics.transforms.eops import MissingEOP, getEarthOrientationParameters  # noqa: E402
+from resonaate.physics.transforms.eops import setEarthOrientationParameters  # noqa: E402
+from resonaate.physics.transforms.eops import getter as eopgetter  # noqa: E402  (set-up / tear-down of the store only)
 from resonaate.physics.transforms.eops import loaders as eoploaders  # noqa: E402
 from resonaate.physics.transforms.nutation import get1980NutationSeries  # noqa: E402
 
@@ -47,10 +50,22 @@ RULE = (
     "on the same numbers given as int64 / int32 / float32 / strided / read-only ndarrays must return the float64 result "
     "and leave its input unmodified; (h) reduction matrices, ECI<->ECEF states, Julian date and TT under four host time "
     "zones (POSIX TZ strings with daylight saving rules) at the corner dates and hour by hour through the switch-over "
-    "days must be bit-identical to the UTC host's. non-trivial = date is a "
+    "days must be bit-identical to the UTC host's; (i) Earth-orientation data installed at RUN TIME with the public "
+    "setter: a reference store (day -> row) is driven through every word of length 1..3 (thorough: 4) over the "
+    "operations {use day D, use day D+1, install series a on D, series b on D, series a on D+1, re-install D's published "
+    "row, reduction of D with explicitly passed data}, each word on its own day pair of the table; after the word (and "
+    "inside every 'use') every reader of the store - look-up in three call forms, reduction matrices and fields, "
+    "eci2ecef/ecef2eci, teme2ecef at 4 instants per day (two in one minute), rotation across the midnight D->D+1 - is "
+    "compared with the independent FK5 model on the row the reference store holds; plus one published field replaced "
+    "at a time (7 fields x 2 magnitudes) x 4 setter call forms (date/datetime key, default/explicit loader) after "
+    "ordinary use, the turn omega*d(UT1-UTC), the original row re-installed (bit-identical again); plus dates outside "
+    "the table that raise MissingEOP, then get rows day by day; plus the setter as the FIRST Earth-orientation call on a "
+    "loader whose file is not in memory (default loader and a LocalDotDatEOPLoader with explicit loader arguments) for 4 "
+    "days inside and 2 outside the file x date/datetime key, then the same readers. non-trivial = date is a "
     "day/month/year/leap boundary (or the instant crosses a minute/hour/day roll-over in UT1 or TT), or the "
     "position/site lies on an axis, pole, equator or antimeridian, or (helpers) the argument sits on a branch point, or "
-    "(d2) the observer's Earth-fixed speed is >= 0.01 km/s; "
+    "(d2) the observer's Earth-fixed speed is >= 0.01 km/s, or (i) the observed day carries a row installed earlier in "
+    "the word; "
     "distinct by construction (lattice points). VERIF_SEED only shifts the swept day/hour and the phase of the "
     "secondary grids."
 )
@@ -69,6 +84,10 @@ ASSUMPTIONS = [
     "instantaneous geodetic sub-point, held fixed in ECEF (relative ECEF position and velocity rotated by one constant "
     "matrix, no basis-rate term), as getSlantRangeVector / razel2radec are written (Vallado eq 4-6): taken as designed; "
     "the sub-point comes from the check's own iterative geodetic inverse",
+    "(i) CachedReductionParams keeps polar motion per day in the key-value store by design and is not driven with "
+    "changing rows. The store's dict and the loader registry are touched directly only for set-up / tear-down (snapshot "
+    "and restore of the entries a word may change; taking the loader out of the registry so that the set-before-load "
+    "history meets an unread loader), never as an operation under test",
 ]
 EXPECT_MIN_NONTRIVIAL = 5000
 
@@ -206,6 +225,13 @@ def items(tier, seed):
         for k, t in enumerate(mv_dates):
             if tier == "thorough" or k == i % len(mv_dates):
                 out.append(("razel_moving", _iso(t), chunk, seed))
+    # Earth-orientation data installed at run time: every word over EOP_OPS up to the tier's depth, one field at a time,
+    # and dates that have no data until they are given some
+    for part in range(EOP_PARTS):
+        out.append(("eop_seq", seed, EOP_DEPTH[tier], part))
+    out.append(("eop_fields", seed))
+    out.append(("eop_missing", seed))
+    out.append(("eop_set_before_load", seed))
     return out
 
 
@@ -240,6 +266,24 @@ def bounds(tier, seed):
             "dates_per_observer": 1 if tier == "quick" else 4,
         },
         "dayOfYear_years": [1896, 2104],
+        "eop_histories": {
+            "operations": EOP_OPS, "max_word_length": EOP_DEPTH[tier], "words": len(_eop_words(EOP_DEPTH[tier])),
+            "day_pair_of_first_word": _eop_word_day(seed, 0, len(_eop_words(EOP_DEPTH[tier]))).isoformat(),
+            "distinct_first_days": len({_eop_word_day(seed, k, len(_eop_words(EOP_DEPTH[tier]))) for k in range(len(_eop_words(EOP_DEPTH[tier])))}),
+            "day_pairs_disjoint": len(_eop_eligible()) // len(_eop_words(EOP_DEPTH[tier])) >= 2,
+            "series": {n: list(_eop_series(n, 0)) for n in "abc"}, "series_fields": list(EOP_FIELDS),
+            "instants_in_U": [list(h) for h in EOP_T_USE], "instants_after_word": [list(h) for h in EOP_T_FINAL],
+            "single_field_variants": [list(v) for v in EOP_FIELD_VARIANTS], "setter_call_forms": EOP_SET_FORMS,
+            "getter_call_forms": ["default", "keywords", "positional"],
+            "dates_without_data": ["first-2, first-1", "last+1, last+2", "last+10, last+11 (never looked up before)"],
+            "set_before_load": {
+                "history": "setter is the first Earth-orientation call on a loader whose file is not in memory, then look-ups, reduction, conversions, midnight step",
+                "loaders": ["default loader (fresh instance)", "LocalDotDatEOPLoader on EOPdata.dat via explicit loader arguments"],
+                "days": ["2 seed-phased table days", "first table day", "day before the last table day", "last+5 (outside the file)", "first-3 (outside the file)"],
+                "setter_key_forms": EOP_SET_FORMS[:2], "series": "a / b alternating",
+            },
+            "words_start": "with the loader's file in memory (look-up of the first table day); the unread-loader start is the set_before_load family",
+        },
     }
 
 
@@ -1506,8 +1550,426 @@ def _run_hosttz(res, item):
             os.environ["TZ"] = old
         _time.tzset()
 
+# ------------------------------------------------------------ Earth-orientation data installed at run time (histories)
+# The table is not read-only: setEarthOrientationParameters (public API; the package's own fixtures and users with newer
+# IERS bulletins call it) installs the data of a calendar date in the loader every conversion reads from.  "For every
+# date with Earth-orientation data" therefore quantifies over HISTORIES too: whatever was looked up, converted or
+# installed earlier in the process, a conversion on day D uses the data day D has NOW.  Every family above evaluates pure
+# functions on a never-modified table, where a result remembered from an earlier call (a memo on the getter, on the
+# reduction or on a conversion, keyed on the date, the minute or the instant; an explicit-EOP call leaking into later
+# look-ups) cannot be told from a fresh one.  Here a reference model of the store (a dict: day -> row) is driven through
+# every word over a small operation alphabet, and after the word everything that reads the store is compared with the
+# independent FK5 model evaluated on the row the reference store holds.
+EOP_FIELDS = ("xp_as", "yp_as", "dut1", "lod", "dpsi_as", "deps_as", "dat")
+EOP_OPS = ["U0", "U1", "Sa0", "Sb0", "Sa1", "R0", "X0"]
+#   U<k>   ordinary use of day D+k: look-ups (three call forms), reduction, ECI<->ECEF, TEME->ECEF at EOP_T_USE
+#   S<n><k> install the hand-made series <n> on day D+k with the public setter
+#   R0     re-install the published row of day D (own parse) with the public setter
+#   X0     a reduction at an instant of day D with EXPLICITLY passed data (series c), which the store must not notice
+EOP_DEPTH = {"quick": 3, "thorough": 4}
+EOP_PARTS = 6
+EOP_T_USE = [(11, 22, 33, 250000), (23, 59, 59, 0)]
+EOP_T_FINAL = [(0, 0, 0, 0), (11, 22, 33, 250000), (11, 22, 48, 0), (23, 59, 59, 0)]  # two instants share a minute
+EOP_STATES = [TARGETS_ECI[0][1], TARGETS_ECI[1][1]]
+EOP_FIELD_VARIANTS = [  # one field of the published row replaced: (field, new value or increment, is_increment)
+    ("xp_as", 0.1, True), ("xp_as", -1e-4, True), ("yp_as", 0.1, True), ("yp_as", -1e-4, True),
+    ("dut1", 0.001, True), ("dut1", -0.5, True), ("lod", 0.001, True), ("lod", -0.0005, True),
+    ("dpsi_as", 0.05, True), ("dpsi_as", -1e-3, True), ("deps_as", 0.05, True), ("deps_as", -1e-3, True),
+    ("dat", 10, False), ("dat", 1, True),
+]
+EOP_SET_FORMS = ["date_key", "datetime_key", "date_key_keywords", "datetime_key_positional"]
+_EOP_ELIGIBLE = None
+
+
+def _eop_series(name, off):
+    """Hand-made Earth-orientation rows (arc seconds / seconds) for day D+off, in EOP_FIELDS order."""
+    if name == "a":  # the smoothest series there is: no polar motion, no nutation corrections, UT1-UTC drifting 1.1 ms/day
+        return (0.0, 0.0, 0.0 - 0.0011 * off, 0.0, 0.0, 0.0, 35)
+    if name == "b":  # every field far from every published row (TAI-UTC of 1972)
+        return (-0.2134, 0.4711, 0.4375 - 0.0009 * off, 0.0021, 0.0612, -0.0305, 10)
+    return (0.1, -0.2, -0.3, 0.0015, -0.02, 0.04, 37)  # "c": only ever passed explicitly, never installed
+
+
+def _row_vals(d):
+    row = fr.eop_table()[0][d]
+    return tuple(row[k] for k in EOP_FIELDS)
+
+
+def _vals_obj(d, vals):
+    return _eops_obj(datetime(d.year, d.month, d.day), *vals)
+
+
+def _vals_ref(t, vals):
+    xp, yp, dut1, lod, dpsi, deps, dat = vals
+    return fr.FK5(t, xp * fr.ARCSEC, yp * fr.ARCSEC, dut1, lod, dpsi * fr.ARCSEC, deps * fr.ARCSEC, dat)
+
+
+def _eop_tag():
+    cfg = BehavioralConfig.getConfig()
+    return cfg.eop.LoaderName, cfg.eop.LoaderLocation
+
+
+def _eop_store():
+    """The dict behind the default public getter/setter - used for set-up and tear-down ONLY (snapshot of the entries a
+    sequence may touch, restored in a finally block so that no other work item of this worker sees them).  Every sequence
+    starts with the file in memory (a look-up of the first table day)."""
+    getEarthOrientationParameters(_table_days()[0])
+    return eopgetter._loadLoader()._eop_data  # noqa: SLF001
+
+
+def _eop_restore(store, saved):
+    for d, obj in saved.items():
+        if obj is None:
+            store.pop(d, None)
+        else:
+            store[d] = obj
+
+
+def _eop_eligible():
+    """Table days D with D+1 in the table and no year end / leap-second insertion between them."""
+    global _EOP_ELIGIBLE  # noqa: PLW0603
+    if _EOP_ELIGIBLE is None:
+        days = _table_days()
+        have = set(days)
+        _EOP_ELIGIBLE = [d for d in days if d + timedelta(days=1) in have and (d.month, d.day) not in ((12, 31), (6, 30))]
+    return _EOP_ELIGIBLE
+
+
+def _eop_words(depth):
+    words, layer = [], [[]]
+    for _ in range(depth):
+        layer = [w + [op] for w in layer for op in EOP_OPS]
+        words += layer
+    return words
+
+
+def _eop_word_day(seed, k, nwords):
+    """Every word gets its own first day D; the pairs (D, D+1) of different words are disjoint while 2*nwords <= eligible
+    days (quick tier), so that a word's history on ITS days is exactly the word even on a tree with process-wide state.
+    In the thorough tier neighbouring words share a day; every word restores the store before the next one starts."""
+    el = _eop_eligible()
+    stride = max(1, len(el) // nwords)
+    return el[((seed * 7919 + 1234) % len(el) + k * stride) % len(el)]
+
+
+def _eop_install(day, vals, form="date_key"):
+    obj = _vals_obj(day, vals)
+    name, loc = _eop_tag()
+    key = day if form.startswith("date_key") else datetime(day.year, day.month, day.day, 13, 14, 15)
+    if form.endswith("keywords"):
+        setEarthOrientationParameters(key, obj, loader_name=name, loader_location=loc)
+    elif form.endswith("positional"):
+        setEarthOrientationParameters(key, obj, name, loc)
+    else:
+        setEarthOrientationParameters(key, obj)
+    return ["installed", tuple(vals), obj]
+
+
+def _eop_same(got, obj, exact):
+    if exact:
+        return got == obj
+    ok = got.date == obj.date and got.delta_atomic_time == obj.delta_atomic_time
+    for f in ("x_p", "y_p", "d_delta_psi", "d_delta_eps", "delta_ut1", "length_of_day"):
+        ok = ok and abs(getattr(got, f) - getattr(obj, f)) <= 1e-14 * abs(getattr(obj, f))
+    return bool(ok)
+
+
+def _eop_mats(t):
+    _, pnr, w = _impl_mats(t)
+    return pnr @ w
+
+
+def _eop_observe(res, item, model, day, times, case0, root0="C04/eop_history"):
+    """Everything that reads the store, for one day, against the reference store's row for that day."""
+    kind, vals, obj = model[day]
+    nt = kind == "installed"
+    root = f"{root0}/{kind}"
+    name, loc = _eop_tag()
+    case0 = dict(case0, observed_day=day.isoformat())
+    noon = datetime(day.year, day.month, day.day, 12, 0, 0)
+    for form, args, kw in (("default", (day,), {}), ("keywords", (day,), {"loader_name": name, "loader_location": loc}),
+                           ("positional", (day, name, loc), {})):
+        try:
+            got, err = getEarthOrientationParameters(*args, **kw), None
+        except MissingEOP as exc:
+            got, err = None, f"MissingEOP: {exc}"
+        if kind == "missing":
+            ok = got is None
+        else:
+            ok = got is not None and _eop_same(got, obj if nt else _vals_obj(day, vals), exact=nt)
+        res.case("eop_history/getter", dict(case0, call=form), bool(ok), nontrivial=nt, signature=f"{root}/getter/{form}",
+                 observed=err or repr(got), expected="MissingEOP" if kind == "missing" else repr(obj or _vals_obj(day, vals)), item=item)
+    if kind == "missing":
+        try:
+            red.ReductionParams.build(noon)
+            raised = False
+        except MissingEOP:
+            raised = True
+        res.case("eop_history/missing_raises", dict(case0, t=_iso(noon)), raised, nontrivial=False,
+                 signature=f"{root}/reduction_raises", observed=raised, expected=True, item=item)
+        return
+    for hms in times:
+        t = datetime(day.year, day.month, day.day, *hms)
+        case = dict(case0, t=_iso(t))
+        rp, pnr, w = _impl_mats(t)
+        ref = _vals_ref(t, vals)
+        _cmp_reduction(res, "eop_history/reduction", rp, ref, case, nt, item, sigroot=f"{root}/reduction")
+        # the conversions agree with the reduction of the same instant (just compared with the model) to rounding:
+        # tolerances as in the eci_ecef family; Earth's rate carries the LOD of the reference store's row
+        omega = [0.0, 0.0, fr.OMEGA_EARTH * (1.0 - vals[3] / 86400.0)]
+        for x in EOP_STATES:
+            x = np.array(x, dtype=float)
+            rad = float(np.linalg.norm(x[:3]))
+            ptol, vtol = 2e-12 * rad, 1e-12 + 2e-16 * rad
+            f = np.asarray(M.eci2ecef(x, t), dtype=float)
+            ef = _compose_eci2ecef(x, pnr, w, omega)
+            res.case("eop_history/eci2ecef", case, f.shape == (6,) and _maxabs(f[:3], ef[:3]) <= ptol and _maxabs(f[3:], ef[3:]) <= vtol,
+                     nontrivial=nt, signature=f"{root}/eci2ecef", observed=f, expected=ef, item=item)
+            g = np.asarray(M.ecef2eci(x, t), dtype=float)
+            eg = _compose_ecef2eci(x, pnr, w, omega)
+            res.case("eop_history/ecef2eci", case, g.shape == (6,) and _maxabs(g[:3], eg[:3]) <= ptol and _maxabs(g[3:], eg[3:]) <= vtol,
+                     nontrivial=nt, signature=f"{root}/ecef2eci", observed=g, expected=eg, item=item)
+            b = np.asarray(M.ecef2eci(f, t), dtype=float)
+            res.case("eop_history/roundtrip", case, _maxabs(b[:3], x[:3]) <= ptol and _maxabs(b[3:], x[3:]) <= vtol,
+                     nontrivial=nt, signature=f"{root}/roundtrip", observed=b, expected=x, item=item)
+            # and with the independent model's own matrices (designed sidereal slack as in eci_ecef/independent_model)
+            rf = ref.eci_to_ecef(x)
+            res.case("eop_history/independent_model", case, _maxabs(f[:3], rf[:3]) <= 3e-9 * rad and _maxabs(f[3:], rf[3:]) <= 3e-9 * (7.5 + 7.3e-5 * rad),
+                     nontrivial=nt, signature=f"{root}/independent_model", observed=f, expected=rf, item=item)
+        # TEME -> ECEF reads polar motion and LOD of the day (GMST of the UTC Julian date: 1e-8, as in the eci_ecef family)
+        x = np.array(EOP_STATES[1], dtype=float)
+        r3 = fr.rot_axis(2, fr.gmst_exact(fr.days_since_j2000(t)))
+        r_pef = r3 @ x[:3]
+        exp = np.concatenate((ref.polar.T @ r_pef, ref.polar.T @ (r3 @ x[3:] - np.array(fr.cross(omega, r_pef)))))
+        got = np.asarray(M.teme2ecef(x, t), dtype=float)
+        nr = float(np.linalg.norm(x[:3]))
+        res.case("eop_history/teme2ecef", case, got.shape == (6,) and _maxabs(got[:3], exp[:3]) <= 1e-8 * nr and _maxabs(got[3:], exp[3:]) <= 1e-8 * 8.0,
+                 nontrivial=nt, signature=f"{root}/teme2ecef", observed=got, expected=exp, item=item)
+
+
+def _eop_midnight(res, item, model, d0, case0, root0="C04/eop_history"):
+    """Rotation of the Earth-fixed frame over the second that contains the midnight D0 -> D0+1, with whatever the
+    reference store holds for the two days: against the independent model's own matrices, and - when both days carry
+    the same polar motion, nutation corrections and TAI-UTC - against omega*(1 s + UT1-UTC step) in closed form."""
+    d1 = d0 + timedelta(days=1)
+    (k0, v0, _), (k1, v1, _) = model[d0], model[d1]
+    if "missing" in (k0, k1):
+        return
+    t1 = datetime(d0.year, d0.month, d0.day, 23, 59, 59, 500000)
+    t2 = t1 + timedelta(seconds=1)
+    dmat = _eop_mats(t1).T @ _eop_mats(t2)
+    ang = fr.rotation_angle(dmat)
+    axis_z = (dmat[1, 0] - dmat[0, 1]) / (2.0 * math.sin(ang)) if ang > 0 else 0.0
+    ang_ref = fr.rotation_angle(_vals_ref(t1, v0).ecef2eci_mat.T @ _vals_ref(t2, v1).ecef2eci_mat)
+    # both angles come from the same rows; what is left is the implementation's frozen sidereal rate, common to both
+    # instants unless the year changes between them (re-anchoring, TOL_JUMP_YEAR as in the continuity family)
+    tol = TOL_JUMP_YEAR if t2.year != t1.year else TOL_JUMP
+    ok = abs(ang - ang_ref) <= tol
+    smooth = v0[:2] == v1[:2] and v0[4:] == v1[4:]
+    exp = fr.OMEGA_EARTH * (1.0 + v1[2] - v0[2])
+    if smooth:
+        ok = ok and abs(ang - exp) <= tol and axis_z >= 1.0 - 1e-6
+    kinds = f"{k0}_to_{k1}"
+    nt = "installed" in (k0, k1)
+    res.case("eop_history/midnight", dict(case0, t1=_iso(t1), smooth_series=smooth), bool(ok), nontrivial=nt,
+             signature=f"{root0}/midnight/{kinds}", observed={"angle": ang, "axis_z": axis_z},
+             expected={"angle_model": ang_ref, "angle_closed_form": exp if smooth else None}, outcome=kinds, item=item)
+    res.observe(ang)
+
+
+def _eop_explicit(res, item, d0, case0):
+    """X0: explicitly passed data (series c) at an instant the U operations also use; never touches the store."""
+    t = datetime(d0.year, d0.month, d0.day, *EOP_T_USE[0])
+    vals = _eop_series("c", 0)
+    rp = red.ReductionParams.build(t, eops=_vals_obj(d0, vals))
+    _cmp_reduction(res, "eop_history/explicit_eops", rp, _vals_ref(t, vals), dict(case0, t=_iso(t)), True, item,
+                   sigroot="C04/eop_history/explicit_eops/reduction")
+
+
+def _eop_final(res, item, model, d0, case0):
+    for off in (0, 1):
+        _eop_observe(res, item, model, d0 + timedelta(days=off), EOP_T_FINAL, case0)
+    _eop_midnight(res, item, model, d0, case0)
+
+
+def _run_eop_seq(res, item):
+    _, seed, depth, part = item
+    words = _eop_words(depth)
+    store = _eop_store()
+    for k, word in enumerate(words):
+        if k % EOP_PARTS != part:
+            continue
+        d0 = _eop_word_day(seed, k, len(words))
+        days = [d0, d0 + timedelta(days=1)]
+        saved = {d: store.get(d) for d in days}
+        model = {d: ["bundled", _row_vals(d), None] for d in days}
+        try:
+            for n, op in enumerate(word):
+                case0 = {"day": d0.isoformat(), "sequence": " ".join(word), "after_op": n + 1}
+                if op[0] == "U":
+                    _eop_observe(res, item, model, days[int(op[1])], EOP_T_USE, case0)
+                elif op[0] == "S":
+                    day = days[int(op[2])]
+                    model[day] = _eop_install(day, _eop_series(op[1], int(op[2])))
+                elif op == "R0":
+                    model[d0] = _eop_install(d0, _row_vals(d0))
+                else:
+                    _eop_explicit(res, item, d0, case0)
+            _eop_final(res, item, model, d0, {"day": d0.isoformat(), "sequence": " ".join(word), "after_op": "end"})
+        finally:
+            _eop_restore(store, saved)
+
+
+def _run_eop_fields(res, item):
+    """One field of the published row replaced at a time (two magnitudes each) x every form of the setter call, after
+    the day has been in ordinary use; then the original row installed again: results bit-identical to the first ones."""
+    _, seed = item
+    store = _eop_store()
+    k = 0
+    for field, val, incr in EOP_FIELD_VARIANTS:
+        for form in EOP_SET_FORMS:
+            d0 = _eop_word_day(seed + 1, k, len(EOP_FIELD_VARIANTS) * len(EOP_SET_FORMS))
+            k += 1
+            days = [d0, d0 + timedelta(days=1)]
+            saved = {d: store.get(d) for d in days}
+            model = {d: ["bundled", _row_vals(d), None] for d in days}
+            case0 = {"day": d0.isoformat(), "sequence": f"U0 U1 S0[{field}{'+' if incr else '='}{val} via {form}] U0 U1 S0[original]", "after_op": 2}
+            noon = datetime(d0.year, d0.month, d0.day, 12, 0, 0)
+            try:
+                for off in (0, 1):
+                    _eop_observe(res, item, model, days[off], EOP_T_USE, case0)
+                first = [np.asarray(v, dtype=float).tobytes() for t in (noon, noon + timedelta(hours=11, minutes=59, seconds=59))
+                         for v in (_impl_mats(t)[1], _impl_mats(t)[2], M.eci2ecef(np.array(EOP_STATES[0]), t))]
+                a_before = _eop_mats(noon)
+                vals = list(_row_vals(d0))
+                i = EOP_FIELDS.index(field)
+                vals[i] = vals[i] + val if incr else val
+                model[d0] = _eop_install(d0, vals, form)
+                case0 = dict(case0, after_op=3)
+                _eop_final(res, item, model, d0, case0)
+                if field == "dut1":
+                    # changing UT1-UTC of a date by d seconds turns the Earth-fixed frame by omega*d at any instant of it
+                    dmat = a_before.T @ _eop_mats(noon)
+                    ang = fr.rotation_angle(dmat)
+                    axis_z = (dmat[1, 0] - dmat[0, 1]) / (2.0 * math.sin(ang)) if ang > 0 else 0.0
+                    ok = abs(ang - fr.OMEGA_EARTH * abs(val)) <= TOL_JUMP and axis_z * val >= (1.0 - 1e-6) * abs(val)
+                    res.case("eop_history/turn_follows_dut1", dict(case0, t=_iso(noon), d_dut1=val), bool(ok), nontrivial=True,
+                             signature="C04/eop_history/installed/turn_follows_dut1", observed={"angle": ang, "axis_z": axis_z},
+                             expected={"angle": fr.OMEGA_EARTH * abs(val), "axis_z": math.copysign(1.0, val)}, item=item)
+                # the original row (the loader's own object) installed again through the public setter
+                setEarthOrientationParameters(d0, saved[d0])
+                again = [np.asarray(v, dtype=float).tobytes() for t in (noon, noon + timedelta(hours=11, minutes=59, seconds=59))
+                         for v in (_impl_mats(t)[1], _impl_mats(t)[2], M.eci2ecef(np.array(EOP_STATES[0]), t))]
+                res.case("eop_history/original_reinstalled", dict(case0, after_op=4), again == first, nontrivial=True,
+                         signature="C04/eop_history/reinstalled/bit_identical", observed=[a == b for a, b in zip(again, first)],
+                         expected="rot_pnr, rot_w, eci2ecef at two instants bit-identical to the values before the change", item=item)
+            finally:
+                _eop_restore(store, saved)
+
+
+def _run_eop_missing(res, item):
+    """Dates WITHOUT data that get data at run time: the look-up and the reduction raise MissingEOP first (so a remembered
+    failure would show), then rows are installed day by day; the boundary to the published table is observed too."""
+    _, seed = item
+    store = _eop_store()
+    first, last = _table_days()[0], _table_days()[-1]
+    one = timedelta(days=1)
+    plans = [  # (days in order of installation, series, look the day up while it is still missing?)
+        ([first - 2 * one, first - one], "b", True),
+        ([last + one, last + 2 * one], "a", True),
+        ([last + 10 * one, last + 11 * one], "b", False),
+    ]
+    for days, series, probe in plans:
+        edge = [first, last]  # published neighbours for the midnight steps (never modified here)
+        saved = {d: store.get(d) for d in days}
+        model = {d: ["missing", None, None] for d in days}
+        model.update({d: ["bundled", _row_vals(d), None] for d in edge})
+        seq = []
+        try:
+            for n, day in enumerate(days):
+                if probe:
+                    seq.append("U(missing)")
+                    for d in days[n:]:
+                        _eop_observe(res, item, model, d, EOP_T_USE, {"day": days[0].isoformat(), "sequence": " ".join(seq), "after_op": len(seq)})
+                seq.append(f"S{series}{n}")
+                model[day] = _eop_install(day, _eop_series(series, n), EOP_SET_FORMS[n % 2])
+                case0 = {"day": days[0].isoformat(), "sequence": " ".join(seq), "after_op": len(seq)}
+                for d in days:
+                    _eop_observe(res, item, model, d, EOP_T_FINAL, case0)
+                for d in (days[0] - one, days[0], days[1]):
+                    if d in model and d + one in model:
+                        _eop_midnight(res, item, model, d, case0)
+        finally:
+            _eop_restore(store, saved)
+
+
+def _run_eop_set_before_load(res, item):
+    """The setter is the FIRST Earth-orientation call on a loader whose file is not in memory yet (a process that installs
+    its rows before it converts anything): the row must survive the lazy load that the first look-up triggers, the other
+    days must come from the file, and a date outside the file keeps working.  Two loaders: the default one every
+    conversion reads (its registry entry is taken out for the duration of the history and put back afterwards - set-up /
+    tear-down only, so the public calls find no loader and make a new, unread one), and a LocalDotDatEOPLoader on the
+    same file addressed with explicit loader arguments (reduction through eops=<what the look-up returned>)."""
+    _, seed = item
+    root0 = "C04/eop_history/set_before_load"
+    first, last = _table_days()[0], _table_days()[-1]
+    one = timedelta(days=1)
+    inside = [_eop_word_day(seed + 2, 0, 3), _eop_word_day(seed + 2, 1, 3), first, last - one]
+    plans = [(d, "inside_file") for d in inside] + [(last + 5 * one, "outside_file"), (first - 3 * one, "outside_file")]
+    loaders = [("default_loader", _eop_tag()), ("local_file_loader", ("LocalDotDatEOPLoader", fr._data_path("eop", "EOPdata.dat")))]  # noqa: SLF001
+    table = fr.eop_table()[0]
+    for lname, (name, loc) in loaders:
+        key = eopgetter.LoaderTag(name, loc)
+        for n, (d0, where) in enumerate(plans):
+            for form in EOP_SET_FORMS[:2]:
+                series = "ab"[n % 2]
+                vals = _eop_series(series, 0)
+                days = [d0, d0 + one]
+                model = {d: (["bundled", _row_vals(d), None] if d in table else ["missing", None, None]) for d in days}
+                case0 = {"day": d0.isoformat(), "sequence": f"(new {lname}) S{series}0[{form}] U0 U1", "after_op": "end", "where": where}
+                saved = eopgetter._EOP_LOADERS.pop(key, None)  # noqa: SLF001
+                try:
+                    if lname == "default_loader":
+                        model[d0] = _eop_install(d0, vals, form)
+                        for d in days:
+                            _eop_observe(res, item, model, d, EOP_T_FINAL, case0, root0=f"{root0}/{lname}/{where}")
+                        _eop_midnight(res, item, model, d0, case0, root0=f"{root0}/{lname}/{where}")
+                        continue
+                    obj = _vals_obj(d0, vals)
+                    k = d0 if form == "date_key" else datetime(d0.year, d0.month, d0.day, 13, 14, 15)
+                    setEarthOrientationParameters(k, obj, loader_name=name, loader_location=loc)
+                    model[d0] = ["installed", tuple(vals), obj]
+                    for d in days:
+                        kind, mv, mo = model[d]
+                        try:
+                            got, err = getEarthOrientationParameters(d, name, loc), None
+                        except MissingEOP as exc:
+                            got, err = None, f"MissingEOP: {exc}"
+                        if kind == "missing":
+                            ok = got is None
+                        else:
+                            ok = got is not None and _eop_same(got, mo or _vals_obj(d, mv), exact=kind == "installed")
+                        c = dict(case0, observed_day=d.isoformat())
+                        res.case("eop_history/getter", c, bool(ok), nontrivial=kind == "installed", signature=f"{root0}/{lname}/{where}/{kind}/getter",
+                                 observed=err or repr(got), expected="MissingEOP" if kind == "missing" else repr(mo or _vals_obj(d, mv)), item=item)
+                        if got is not None and kind != "missing":
+                            t = datetime(d.year, d.month, d.day, *EOP_T_USE[0])
+                            rp = red.ReductionParams.build(t, eops=got)
+                            _cmp_reduction(res, "eop_history/reduction", rp, _vals_ref(t, mv), dict(c, t=_iso(t)), kind == "installed", item,
+                                           sigroot=f"{root0}/{lname}/{where}/{kind}/reduction")
+                finally:
+                    if saved is None:
+                        eopgetter._EOP_LOADERS.pop(key, None)  # noqa: SLF001
+                    else:
+                        eopgetter._EOP_LOADERS[key] = saved  # noqa: SLF001
+
+
 # ---------------------------------------------------------------------------------------------- dispatch
 _RUNNERS = {
+    "eop_set_before_load": _run_eop_set_before_load,
+    "eop_seq": _run_eop_seq,
+    "eop_fields": _run_eop_fields,
+    "eop_missing": _run_eop_missing,
     "maths": _run_maths,
     "anchor": _run_anchor,
     "loader_api": _run_loader_api,
